@@ -216,6 +216,11 @@ fn exec_step(gi: usize, t: usize, s: &Value, tc: &mut ThreadCtx) {
                                 panic!("injected panic while a span is entered");
                             }));
                         });
+                    } else if s["cb_panic"].as_bool().unwrap_or(false) {
+                        // fault: the outermost layer's on_exit panics (caught here); the span must be exited all the same
+                        crate::reclayer::PANIC_NEXT_ON_EXIT.with(|c| c.set(true));
+                        let _ = std::panic::catch_unwind(std::panic::AssertUnwindSafe(|| with_under(&under, || d.exit(&id))));
+                        crate::reclayer::PANIC_NEXT_ON_EXIT.with(|c| c.set(false));
                     } else {
                         with_under(&under, || d.exit(&id));
                     }
@@ -512,6 +517,8 @@ impl Engine for RegistryEngine {
                             entered[tt].remove(pos);
                             if rng.chance(1, 6) {
                                 json!({"t": t, "op": "exit", "idx": idx, "unwind": true})
+                            } else if g.prop == "C06" && rng.chance(1, 8) {
+                                json!({"t": t, "op": "exit", "idx": idx, "cb_panic": true})
                             } else {
                                 json!({"t": t, "op": "exit", "idx": idx})
                             }
@@ -905,6 +912,22 @@ fn oracle(prop: &str, sync: bool, hist: &[H], log: &[LRec]) {
                         ooo = true;
                     }
                     st.remove(pos);
+                }
+                if prop == "C06" {
+                    // inside on_exit the span has been exited already: the layers see the thread's new current span
+                    // (threads that hold some span entered twice are outside the 'current' clause)
+                    let mut d = st.clone();
+                    d.sort();
+                    d.dedup();
+                    if d.len() == st.len() && !st.contains(&h.uid) {
+                        let new_cur = st.last().and_then(|u| spans.get(u)).map(|s| s.id).unwrap_or(0);
+                        for r in log.iter().filter(|r| r.stack == 0 && r.kind == "on_exit" && r.id == h.id && r.thread == t && r.stamp > h.inv && r.stamp < h.ret) {
+                            if r.cur != new_cur {
+                                violation("wrong-current", format!("lookup_current inside on_exit of span id {} on t{t} (layer {}) gave id {} but the thread's current span is id {}", h.id, r.layer, r.cur, new_cur));
+                                return;
+                            }
+                        }
+                    }
                 }
                 became.push(h.uid);
             }
